@@ -60,7 +60,7 @@ impl Method for EMA {
 
 	fn new(length: Self::Params, &value: &Self::Input) -> Result<Self, Error> {
 		match length {
-			0 => Err(Error::WrongMethodParameters),
+			0 | PeriodType::MAX => Err(Error::WrongMethodParameters),
 			length => {
 				let alpha = 2. / ((length + 1) as ValueType);
 				Ok(Self { alpha, value })
@@ -103,7 +103,7 @@ impl Method for DMA {
 
 	fn new(length: Self::Params, value: &Self::Input) -> Result<Self, Error> {
 		match length {
-			0 => Err(Error::WrongMethodParameters),
+			0 | PeriodType::MAX => Err(Error::WrongMethodParameters),
 			length => Ok(Self {
 				ema: EMA::new(length, value)?,
 				dma: EMA::new(length, value)?,
@@ -144,7 +144,7 @@ impl Method for TMA {
 
 	fn new(length: Self::Params, value: &Self::Input) -> Result<Self, Error> {
 		match length {
-			0 => Err(Error::WrongMethodParameters),
+			0 | PeriodType::MAX => Err(Error::WrongMethodParameters),
 			length => Ok(Self {
 				dma: DMA::new(length, value)?,
 				tma: EMA::new(length, value)?,
@@ -222,7 +222,7 @@ impl Method for DEMA {
 
 	fn new(length: Self::Params, value: &Self::Input) -> Result<Self, Error> {
 		match length {
-			0 => Err(Error::WrongMethodParameters),
+			0 | PeriodType::MAX => Err(Error::WrongMethodParameters),
 			length => Ok(Self {
 				ema: EMA::new(length, value)?,
 				dma: EMA::new(length, value)?,
@@ -308,7 +308,7 @@ impl Method for TEMA {
 
 	fn new(length: Self::Params, value: &Self::Input) -> Result<Self, Error> {
 		match length {
-			0 => Err(Error::WrongMethodParameters),
+			0 | PeriodType::MAX => Err(Error::WrongMethodParameters),
 			length => Ok(Self {
 				ema: EMA::new(length, value)?,
 				dma: EMA::new(length, value)?,
